@@ -74,6 +74,9 @@ META["rule"] += (
 META["rule"] += (
     " " + 'Added after the sixth round: rainfall records of 1025, 1100, 2100 samples; 129, 200, 300 bins in the surrogate MI test.')
 
+META["rule"] += (
+    " " + "Added after the seventh round: ResNetwork with a resized adjacency / node index outside the network; family 'resized' (six more subclasses, every parameter-free method); cross plots of trajectories with different numbers of components; symmetrize_by_absmax with matrices that do not match the object.")
+
 _state = {"off": 0, "path": None}
 
 
@@ -804,6 +807,18 @@ def fam_crp_jrp(ctx):
                                 j.vertline_dist()
                         yield (f"JointRecurrencePlot.__init__|T={Tx},d={dm},"
                                f"lag={lag},{list(mode)[0]}", t)
+    # trajectories with different numbers of components (no embedding)
+    for (Tx, dx), (Ty, dy) in (((6, 3), (5, 2)), ((6, 2), (5, 3)),
+                               ((4, 3), (7, 1)), ((300, 4), (200, 2))):
+        x = r.normal(size=(Tx, dx))
+        y = r.normal(size=(Ty, dy))
+        for metric in ("supremum", "euclidean", "manhattan"):
+            def t(x=x, y=y, metric=metric):
+                c = CRP(x, y, metric=metric, threshold=0.8, silence_level=3)
+                return (c.recurrence_matrix().shape,
+                        c.distance_matrix(metric).shape)
+            yield (f"CrossRecurrencePlot.__init__|components={dx}vs{dy},"
+                   f"Tx={Tx},{metric}", t)
 
 
 def fam_isrn(ctx):
@@ -1040,6 +1055,20 @@ def fam_funcnet(ctx, part=0):
                        lambda S=S, Lg=Lg: CA(np.zeros((4, max(N, 1))),
                                              silence_level=3)
                        .symmetrize_by_absmax(S, Lg))
+    # matrices that do not cover all N nodes of the object (a node
+    # sub-selection), and a lag matrix of another size than the similarity
+    for N0, (a, b), (c, d) in ((6, (4, 4), (4, 4)), (6, (6, 6), (3, 3)),
+                               (5, (3, 5), (3, 5)), (5, (5, 5), (5, 2)),
+                               (4, (6, 6), (6, 6))):
+        S = r.normal(size=(a, b))
+        Lg = r.integers(0, 3, (c, d))
+
+        def t(N0=N0, S=S, Lg=Lg):
+            out = CA(np.zeros((8, N0)), silence_level=3) \
+                .symmetrize_by_absmax(S.copy(), Lg.copy())
+            return [np.shape(v) for v in out]
+        yield (f"CouplingAnalysis.symmetrize_by_absmax|N={N0},S={a}x{b},"
+               f"lag={c}x{d}", t)
 
 
 def fam_climate(ctx):
